@@ -2,6 +2,13 @@ import Driver.Sched
 import Driver.Cycle
 import Driver.Auth
 import Driver.Hist
+import Driver.Defs
+import Driver.Params
+import Driver.Log
+import Driver.Load
+import Driver.Lock
+import Driver.Api
+import Driver.Cron
 /- line-protocol oracle: `driver <mode>` reads stdin, writes one answer per request -/
 open Driver
 
@@ -16,11 +23,32 @@ def main (args : List String) : IO UInt32 := do
   | ["cycle"] =>
     for l in lines do out.putStrLn (Cycle.runLine l)
     return 0
+  | ["defs"] =>
+    for l in Defs.run lines.toList do out.putStrLn l
+    return 0
   | ["hist"] =>
     for l in Hist.run lines.toList do out.putStrLn l
     return 0
+  | ["cron"] =>
+    for l in Cron.run lines.toList do out.putStrLn l
+    return 0
+  | ["load"] =>
+    for l in lines do out.putStrLn (Load.runLine l)
+    return 0
   | ["auth"] =>
     for l in lines do out.putStrLn (Auth.runLine l)
+    return 0
+  | ["api"] =>
+    for l in Api.run lines.toList do out.putStrLn l
+    return 0
+  | ["lock"] =>
+    for l in lines do out.putStrLn (Lock.runLine l)
+    return 0
+  | ["params"] =>
+    for l in lines do out.putStrLn (Params.runLine l)
+    return 0
+  | ["log"] =>
+    for l in lines do out.putStrLn (Log.runLine l)
     return 0
   | _ =>
     IO.eprintln "usage: driver sched|cycle|auth"
